@@ -846,7 +846,7 @@ class TorConfig:
           KEYWORD.
         """
 
-        conf = parse_keywords(arg, multiline_values=False)
+        conf = parse_keywords(arg, multiline_values=False, unquote_values=False)
         for (k, v) in conf.items():
             # v will be txtorcon.DEFAULT_VALUE already from
             # parse_keywords if it was unspecified
